@@ -248,7 +248,9 @@ func (p *BaseMySQLDataProcessor) decodeBinary(ctx context.Context, encoded []byt
 		if err != nil {
 			break
 		}
-		return ctx, strconv.AppendFloat(nil, numericValue, 'G', -1, 32), nil
+		// bitSize 64: with 32 the DOUBLE value was rounded to float32 precision (1e300 became +Inf) before
+		// encodeBinary wrote it back, so every DOUBLE column of a binary row reached the client changed
+		return ctx, strconv.AppendFloat(nil, numericValue, 'G', -1, 64), nil
 	}
 	// binary and string values in binary format we return as is because it is encrypted blob
 	return ctx, encoded, nil
